@@ -1,6 +1,7 @@
 # GOV world: C15 governance accounting (stakes, votes, rankings, voting-power rank, names)
 
-PLAN["C15"] = [{"world": "gov", "share": 1, "probes": [
+PLAN["C15"] = [{"world": "chain", "share": 1, "probes": ["vpr-checked-after-refused-block"]},
+               {"world": "gov", "share": 1, "probes": [
     "stake-exactly-at-expiry", "stake-one-block-before-expiry", "unstake-exactly-at-expiry", "unstake-one-block-before-expiry",
     "revote-exactly-at-expiry", "revote-one-block-before-expiry", "revote-overlapping-candidates",
     "partial-unstake-shrinks-votes", "full-unstake", "stake-added", "tie-between-voted-candidates", "same-tallies-reached-again",
@@ -42,3 +43,5 @@ MAN["C15"] = {
     "note": "trusted: the reference model (written from the statement, checked against the code only through the runs), the state walker, storage key names from types/dbkey; sampling only; signatures are outside the executor path that is driven",
     "technique": "deterministic simulation: seeded transaction histories on the real executor with harness-chosen block heights (time warp across lock periods) and block drop/reject faults, model-based oracle plus invariants over an independent state walk at every block boundary",
 }
+
+RULES["C15"] = RULES["C15"] + (" A share of the workers runs the CHAIN world with stake / producer-vote transactions in the block tree: the node under test executes, refuses (forged roots), orphans and reorganizes such blocks through the real chain service and DPoS status, and after every delivery its in-memory voting-power rank must equal the one rebuilt from the persisted state of its best block.")
